@@ -435,7 +435,23 @@ class Interp:
                 return self.ev(node.body if self.ctx.decide(c, "spec-ite") else node.orelse, env)
             a, b = self.ev(node.body, env), self.ev(node.orelse, env)
             return self.v_ite(c, a, b, node)
-        if self.test(self.ev(node.test, env), node):
+        tv = self.ev(node.test, env)
+        if self.ctx.acc_frames and not any(isinstance(n, (ast.Yield, ast.YieldFrom, ast.NamedExpr)) for n in ast.walk(node)):
+            # inside a comprehension / accumulation loop a conditional EXPRESSION is kept as one value (both arms evaluated under their
+            # condition and merged) so that the element stays a single expression of the loop variable; if the arms cannot be merged,
+            # or evaluating one of them forks or raises, fall back to forking
+            c = self.truth(tv, node)
+            if not isinstance(c, bool) and concrete_bool(c) is None:
+                from .ctx import explore_sub
+                try:
+                    outs_a = explore_sub(self.ctx, lambda: (self.ctx.assume(c, decision=True), self.ev(node.body, env))[1])
+                    outs_b = explore_sub(self.ctx, lambda: (self.ctx.assume(z3.Not(c), decision=True), self.ev(node.orelse, env))[1])
+                    if len(outs_a) == 1 and len(outs_b) == 1 and not outs_a[0][1] and not outs_b[0][1]:
+                        return self.v_ite(c, outs_a[0][2], outs_b[0][2], node)
+                except (Unsupported, PyRaise):
+                    pass
+                return self.ev(node.body, env) if self.ctx.decide(c, getattr(node, "lineno", "")) else self.ev(node.orelse, env)
+        if self.test(tv, node):
             return self.ev(node.body, env)
         return self.ev(node.orelse, env)
 
@@ -463,6 +479,12 @@ class Interp:
             return VObj(a.tag, z3.If(c, a.term, b.term))
         if a is b:
             return a
+        try:
+            ta, tb = self.externs._arg_term(self, a), self.externs._arg_term(self, b)
+            if ta.sort() == tb.sort() == OBJ:
+                return VObj("object", z3.If(c, ta, tb))      # two opaque / constant objects: the object term of the chosen one
+        except Unsupported:
+            pass
         self.unsupported(node, f"ite over {a!r} / {b!r}")
 
     def ev_BoolOp(self, node, env):
